@@ -54,6 +54,11 @@ func ColVal(id int64, j int, typ string, isID bool) interface{} {
 	if isID {
 		b = id
 	}
+	if wideValues && !isID {
+		if v := wideVal(b, ((id+int64(j))%4+4)%4, typ); v != nil {
+			return v
+		}
+	}
 	switch typ {
 	case "i1":
 		return int8(b % 100)
@@ -77,6 +82,70 @@ func ColVal(id int64, j int, typ string, isID bool) interface{} {
 		return float64(b) + 0.25
 	}
 	panic("harness: unknown column type " + typ)
+}
+
+// wideValues (C14): column values also come from the edges of each type's
+// range — negative, top half of an unsigned range, extreme, fractional — so a
+// conversion that is only wrong there is seen. Still a function of the id.
+var wideValues bool
+
+func wideVal(b, cls int64, typ string) interface{} {
+	if cls == 0 {
+		return nil // the ordinary small value
+	}
+	k := (b%1000 + 1000) % 1000 // ids read back from a corrupted row may be negative
+	sgn := func(bits uint) int64 {
+		max := int64(1)<<(bits-1) - 1
+		switch cls {
+		case 1:
+			return -(k % (max/2 + 1)) - 1
+		case 2:
+			return max - k%3
+		}
+		return -max - 1 + k%3
+	}
+	uns := func(bits uint) uint64 {
+		max := ^uint64(0) >> (64 - bits)
+		switch cls {
+		case 1:
+			return max - uint64(k)%(max/4+1)
+		case 2:
+			return max/2 + 1 + uint64(k)%(max/4+1)
+		}
+		return max
+	}
+	switch typ {
+	case "i1":
+		return int8(sgn(8))
+	case "i2":
+		return int16(sgn(16))
+	case "i4":
+		return int32(sgn(32))
+	case "i8":
+		v := sgn(64)
+		if float32(v) != float32(float64(v)) {
+			return nil // direct and two-step rounding to float32 differ: not a value to judge with
+		}
+		return v
+	case "u1":
+		return uint8(uns(8))
+	case "u2":
+		return uint16(uns(16))
+	case "u4":
+		return uint32(uns(32))
+	case "u8":
+		v := uns(64)
+		if float32(v) != float32(float64(v)) {
+			return nil
+		}
+		return v
+	case "f4":
+		// non-negative and below 100: converting it to any integer type is defined
+		return float32(k%100) + []float32{0, 0.25, 0.75, 0.999}[cls]
+	case "f8":
+		return float64(k%100) + []float64{0, 0.125, 0.875, 0.999999}[cls]
+	}
+	return nil
 }
 
 // bucketColVal is the value column j of bucket b holds for record id.
@@ -268,6 +337,25 @@ type BucketWrite struct {
 	// bucket column the j-th sent column's values are derived from (-1: junk).
 	Cols   []Col
 	SrcIdx []int
+	// SentNative: a retyped column's values are generated in the type that is
+	// sent (so the whole range of that type is reachable), not derived from the
+	// bucket column's value.
+	SentNative bool
+}
+
+// sentVal is the value sent for record id in sent column c (derived from
+// bucket column srcj).
+func (bw *BucketWrite) sentVal(id int64, c Col, srcj, idc int) interface{} {
+	if srcj < 0 {
+		return Convert(int64(7), c.Typ)
+	}
+	bc := bw.B.Cols[srcj]
+	if bw.SentNative && c.Typ != bc.Typ && srcj != idc && !bc.Const {
+		return ColVal(id, srcj, c.Typ, false)
+	}
+	// the value the client means: derived in the *bucket* column's terms, then
+	// expressed in the type the client sends
+	return Convert(bucketColVal(bw.B, id, srcj, idc), c.Typ)
 }
 
 func (bw *BucketWrite) sentCols() ([]Col, []int) {
@@ -296,15 +384,7 @@ func (bw *BucketWrite) buildCS() *io.ColumnSeries {
 	for j, c := range cols {
 		sl := newSlice(c.Typ)
 		for _, r := range bw.Recs {
-			var v interface{}
-			if src[j] >= 0 {
-				// the value the client means: derived in the *bucket* column's
-				// terms, then expressed in the type the client sends
-				v = Convert(bucketColVal(bw.B, r.ID, src[j], idc), c.Typ)
-			} else {
-				v = Convert(int64(7), c.Typ)
-			}
-			sl = appendVal(sl, v)
+			sl = appendVal(sl, bw.sentVal(r.ID, c, src[j], idc))
 		}
 		cs.AddColumn(c.Name, sl)
 	}
